@@ -141,6 +141,8 @@ type c02Case struct {
 	// two_empty = two VPs, the additional one without credentials.
 	Layout string `json:"layout"`
 	DPoP   bool   `json:"dpop"`
+	// Window: validity period of the (valid) main presentation: 0 = [now, now+5s], 1 = [now-2s, now+3s]
+	Window int `json:"window"`
 	// Leg: for a scope with both an organization and a user definition: which of the two the s2s request fulfils
 	// (the vp_token-bearer grant carries one submission), resp. which OpenID4VP leg of the authorization-code flow gets the defects.
 	Leg      int         `json:"leg"`
@@ -275,6 +277,7 @@ func c02Gen(t *rapid.T) c02Case {
 	c.DPoP = rapid.Bool().Draw(t, "dpop")
 	c.ClientID = rapid.IntRange(0, len(c02ClientIDs)-1).Draw(t, "client_id")
 	c.Leg = rapid.IntRange(0, 1).Draw(t, "leg")
+	c.Window = rapid.SampledFrom([]int{0, 0, 1}).Draw(t, "window")
 
 	groups := c02S2SDefects
 	if c.Flow == "code" {
@@ -298,7 +301,7 @@ func c02Gen(t *rapid.T) c02Case {
 		picked[g] = true
 		c.Defects = append(c.Defects, c02Defect{
 			Name: rapid.SampledFrom(groups[g]).Draw(t, "defect"),
-			Arg:  rapid.IntRange(0, 5).Draw(t, "darg"),
+			Arg:  rapid.IntRange(0, 11).Draw(t, "darg"),
 		})
 	}
 	sort.Slice(c.Defects, func(i, j int) bool { return c.Defects[i].Name < c.Defects[j].Name })
